@@ -171,7 +171,36 @@ def _args_one(c):
 
 replay_args = common.per_case(_args_one, 'args')
 
-REPLAYERS = {'amp': replay_amp, 'stiff': replay_stiff, 'args': replay_args}
+def _tableau_one(c):
+  """A user supplied tableau: the generic driver must compute the textbook IMEX-RK value."""
+  jax, jnp = _jax()
+  from dinosaur import time_integration as ti
+  out = []
+  tb = c['tb']
+  fr = lambda row: [float(frac(v)) for v in row]
+  tableau = ti.ImExButcherTableau(a_ex=[fr(r) for r in tb['a_ex']], a_im=[fr(r) for r in tb['a_im']],
+                                  b_ex=fr(tb['b_ex']), b_im=fr(tb['b_im']))
+  lam, mu = _c(c['lam']), _c(c['mu'])
+  exp = _c(c['out'])
+  log = []
+  step = ti.imex_runge_kutta(tableau, _linear_eq(lam, mu, log), 1.0)
+  got = step({'a': jnp.ones((), jnp.complex128)})
+  val = complex(got['a'])
+  if not abs(val - exp) <= 2e-13 * max(1.0, abs(exp)):
+    out.append({'case': c, 'sig': f'tableau:{c["id"]}:value',
+                'detail': f'n={c["n"]} tableau {tb}: code factor {val!r}, textbook IMEX-RK value {exp!r}'})
+  want = [(e['k'], float(frac(e['eta'])) if e['k'] == 'Ginv' else None) for e in c['calls']]
+  have = [(k, e if k == 'Ginv' else None) for k, e in log]
+  if [k for k, _ in want] != [k for k, _ in have] or any(
+      a is not None and abs(a - b) > 1e-15 for (_, a), (_, b) in zip(want, have)):
+    out.append({'case': c, 'sig': f'tableau:{c["id"]}:calls', 'drift': not out,
+                'detail': f'call sequence {have} differs from the stage program {want}'})
+  return out
+
+
+replay_tableau = common.per_case(_tableau_one, 'tableau')
+
+REPLAYERS = {'amp': replay_amp, 'stiff': replay_stiff, 'args': replay_args, 'tableau': replay_tableau}
 
 
 def replay(ctx, kind, cases):
@@ -284,16 +313,37 @@ def run(ctx):
     kind = m['sig'].split(':')[0]
     kind = {'astable': 'amp', 'lengths': 'args'}.get(kind, kind)
     ctx.mismatch(kind, m['case'], m['sig'], m['detail'])
+  # user supplied tableaux: every zero/non-zero pattern of 2- and 3-stage tableaux + named pairs
+  rt = ctx.tlc('ImexTableaux', 'ImexTableaux_quick.cfg' if q else 'ImexTableaux.cfg')
+  ctx.require_actions(rt, ['ExecF', 'ExecG', 'ExecGinv', 'ExecLin'])
+  if len(rt.cases) < 100:
+    raise common.MachineryError('too few tableau cases exported')
+  tab_res = common.parallel_map('c06', 'replay_tableau', rt.cases, tag='tab', outdir=os.path.join(ctx.out, 'par'))
+  for m in tab_res:
+    ctx.record('tableau', m)
+  ctx.replayed += len(rt.cases)
+  ctx.comparisons += 2 * len(rt.cases)
+  for c in rt.cases:
+    ctx.distinct.add(json.dumps([c['id'], c['tb'], c['lam'], c['mu']]))
+  ctx.sample({'kind': 'tableau', 'case': rt.cases[len(rt.cases) // 2]})
   ctx.sample({'kind': 'amp', 'case': amp[len(amp) // 3]})
   ctx.sample({'kind': 'args', 'case': ra.cases[7]})
   # traces
   traces = record_traces(ctx.seed, q)
   okids, bad = validate_traces(ctx, traces, 'impl')
   ctx.traces += len(okids)
+  # Which callbacks an integrator evaluates in which order is not part of the property: a rejected
+  # call sequence is a violation only if a value-level comparison of the same integrator fails too
+  # (drift policy, DESIGN section 11); otherwise it is reported as a NOTE.
+  value_bad = {ig for ig in ('euler', 'cnrk2', 'rk3', 'rk4', 'sil3', 'leapfrog')
+               if any(m['sig'].startswith((f'amp:{ig}', f'stiff:{ig}')) for m in res)}
+  if any(m['sig'].startswith('tableau:') and not m.get('drift') for m in tab_res):
+    value_bad.add('sil3')
   for i in bad:
     t = traces[i - 1]
-    ctx.mismatch('trace', t, f'trace:rejected:{t["ig"]}:{t["src"]}',
-                 'call sequence of the real integrator is not a behaviour of its stage program')
+    ctx.record('trace', {'case': t, 'sig': f'trace:rejected:{t["ig"]}:{t["src"]}',
+                         'drift': t['ig'] not in value_bad,
+                         'detail': 'call sequence of the real integrator is not a behaviour of its stage program'})
   import copy
   cor = copy.deepcopy([t for t in traces if t['ig'] != 'rk4'][:6])
   for t in cor:
